@@ -33,7 +33,8 @@ pub(crate) mod verif_row {
         }
     }
     pub fn ghost_now() -> DateTime<Utc> {
-        unsafe { mk_time(G_NOW_DAY, G_NOW_SEC) }
+        // day 0 = the clock was never read in this step: a sentinel no row time stamp can equal
+        unsafe { if G_NOW_CALLS == 0 { mk_time(366 - 1, 86_399) } else { mk_time(G_NOW_DAY, G_NOW_SEC) } }
     }
     pub fn any_time() -> DateTime<Utc> {
         let day: u32 = kani::any();
@@ -272,6 +273,7 @@ pub(crate) mod verif_row {
 
     /// C12: every accepted frame restarts the last-contact age, on both paths.
     pub fn check_clock(n: &Plane) {
+        assert!(unsafe { G_NOW_CALLS } >= 1, "the receive time of this frame is taken");
         assert!(n.timestamp == ghost_now(), "last-contact time stamp = receive time of this frame");
     }
     pub fn check_last_df(o: &Plane, n: &Plane, df: u32, path: Path) {
@@ -345,7 +347,7 @@ pub(crate) mod verif_row {
         kani::cover!(true, "reach_end");
     }
 
-    //@ob id=L2.step.short.update flags=noassert props=C05,C06,C11,C12 tier=quick kind=harness fns=plane/from_squitter.rs:Plane::update,plane/from_squitter/from_bcast.rs:update_from_bcast draw=frame14
+    //@ob id=L2.step.short.update flags=noassert props=C05,C06,C11,C12 tier=thorough mem=high kind=harness fns=plane/from_squitter.rs:Plane::update,plane/from_squitter/from_bcast.rs:update_from_bcast draw=frame14
     //@region -U path (Plane::update), all 56-bit frames DF0..15 with non-zero address x all prior row states x -R: DF4 sets altitude, DF5 squawk, DF11 CA; time stamp restarts; every other field unchanged
     #[kani::proof]
     #[kani::unwind(34)]
@@ -354,7 +356,7 @@ pub(crate) mod verif_row {
         short_step(Path::Update);
     }
 
-    //@ob id=L2.step.short.downlink flags=noassert props=C05,C06,C11,C12,C19 tier=quick kind=harness fns=plane/from_downlink.rs:update_from_downlink,plane/from_downlink/from_srt.rs:update_from_downlink,downlink/short.rs:Srt::update,downlink/dfs.rs:DF::from_message draw=frame14
+    //@ob id=L2.step.short.downlink flags=noassert props=C05,C06,C11,C12,C19 tier=thorough mem=high kind=harness fns=plane/from_downlink.rs:update_from_downlink,plane/from_downlink/from_srt.rs:update_from_downlink,downlink/short.rs:Srt::update,downlink/dfs.rs:DF::from_message draw=frame14
     //@region default path (DF::from_message + update_from_downlink), same frames and rows: same effect as the -U path
     #[kani::proof]
     #[kani::unwind(34)]
@@ -362,4 +364,328 @@ pub(crate) mod verif_row {
     fn l2_step_short_downlink() {
         short_step(Path::Downlink);
     }
+
+    // ================================================================= extended squitters (DF17)
+    // Ghost-recording stand-ins for the float-heavy callees of the position and velocity
+    // updates; their own contracts are separate obligations (C08.*, C09.velocity.*).
+    pub static mut G_TGS_CALLS: u32 = 0;
+    pub static mut G_TGS_MSG: *const u32 = core::ptr::null();
+    pub static mut G_TGS_SS: bool = false;
+    pub static mut G_TGS_RET: (Option<u32>, Option<u32>) = (None, None);
+    pub fn tgs_rec(message: &[u32], is_supersonic: bool) -> (Option<u32>, Option<u32>) {
+        unsafe {
+            if G_TGS_CALLS == 0 {
+                G_TGS_RET = (kani::any(), kani::any());
+            }
+            G_TGS_CALLS += 1;
+            G_TGS_MSG = message.as_ptr();
+            G_TGS_SS = is_supersonic;
+            G_TGS_RET
+        }
+    }
+    pub static mut G_LOC_CALLS: u32 = 0;
+    pub static mut G_LOC_ARGS: ([u32; 2], [u32; 2], u32, i32) = ([0; 2], [0; 2], 9, 0);
+    pub static mut G_LOC_SOME: bool = false;
+    pub static mut G_LOC_LAT: f64 = 0.0;
+    pub static mut G_LOC_LON: f64 = 0.0;
+    pub fn loc_rec(cpr_lat: &[u32; 2], cpr_lon: &[u32; 2], cpr_form: u32, coeff: i32) -> Option<(f64, f64)> {
+        unsafe {
+            if G_LOC_CALLS == 0 {
+                G_LOC_SOME = kani::any();
+                G_LOC_LAT = kani::any();
+                G_LOC_LON = kani::any();
+            }
+            G_LOC_CALLS += 1;
+            G_LOC_ARGS = (*cpr_lat, *cpr_lon, cpr_form, coeff);
+            if G_LOC_SOME { Some((G_LOC_LAT, G_LOC_LON)) } else { None }
+        }
+    }
+    pub static mut G_OBS_SOME: bool = false;
+    pub static mut G_OBS: (f64, f64) = (0.0, 0.0);
+    pub static mut G_OBS_INIT: bool = false;
+    pub fn obs_rec() -> Option<(f64, f64)> {
+        unsafe {
+            if !G_OBS_INIT {
+                G_OBS_INIT = true;
+                G_OBS_SOME = kani::any();
+                let (a, b): (f64, f64) = (kani::any(), kani::any());
+                kani::assume(!a.is_nan() && !b.is_nan());
+                G_OBS = (a, b);
+            }
+            if G_OBS_SOME { Some(G_OBS) } else { None }
+        }
+    }
+    pub static mut G_HAV_CALLS: u32 = 0;
+    pub static mut G_HAV_ARGS: (f64, f64, f64, f64) = (0.0, 0.0, 0.0, 0.0);
+    pub static mut G_HAV_RET: f64 = 0.0;
+    pub fn hav_rec(lat1: f64, lon1: f64, lat2: f64, lon2: f64) -> f64 {
+        unsafe {
+            if G_HAV_CALLS == 0 {
+                let r: f64 = kani::any();
+                kani::assume(!r.is_nan());
+                G_HAV_RET = r;
+            }
+            G_HAV_CALLS += 1;
+            G_HAV_ARGS = (lat1, lon1, lat2, lon2);
+            G_HAV_RET
+        }
+    }
+
+    // Callsign decoder stand-in: fixed distinguishable result, records which frame it was asked
+    // about (the decoder's own contract is C07.ais.*).  Keeps symbolic-length Strings out of
+    // the row-step obligations.
+    pub static mut G_AIS_CALLS: u32 = 0;
+    pub static mut G_AIS_MSG: *const u32 = core::ptr::null();
+    pub fn ais_rec(message: &[u32]) -> Option<String> {
+        unsafe {
+            G_AIS_CALLS += 1;
+            G_AIS_MSG = message.as_ptr();
+        }
+        Some(String::from("NEWSIGN"))
+    }
+    pub fn is_new_callsign(p: &Plane, m: &[u32]) -> bool {
+        unsafe { G_AIS_CALLS >= 1 && G_AIS_MSG == m.as_ptr() && p.ais.as_deref().map_or(false, |s| str_eq(s, "NEWSIGN")) }
+    }
+
+    // Position-update stand-in for the handlers that store a CPR slot and then ask for a
+    // position update: records its arguments and the row's CPR slots at the time of the call.
+    pub static mut G_POS_CALLS: u32 = 0;
+    pub static mut G_POS_ARGS: (u32, u32) = (0, 0);
+    pub static mut G_POS_LAT: [u32; 2] = [0; 2];
+    pub static mut G_POS_LON: [u32; 2] = [0; 2];
+    pub static mut G_POS_T_EQ: bool = false;
+    pub fn pos_rec(p: &mut Plane, message_type: u32, cpr_form: u32) {
+        unsafe {
+            G_POS_CALLS += 1;
+            G_POS_ARGS = (message_type, cpr_form);
+            G_POS_LAT = p.cpr_lat;
+            G_POS_LON = p.cpr_lon;
+            G_POS_T_EQ = cpr_form <= 1 && p.cpr_time[cpr_form as usize] == p.timestamp;
+        }
+    }
+    /// A TC5-18 handler stores this frame's CPR triple in the slot of its parity, stamps it with
+    /// the row's (just refreshed) time stamp, and then asks for a position update of that slot.
+    pub fn check_cpr_store(o: &Plane, n: &Plane, m: &[u32], tc: u32) {
+        let (f, la, lo) = decoder::cpr(m).unwrap();
+        let fi = f as usize;
+        let other = 1 - fi;
+        assert!(n.cpr_lat[fi] == la && n.cpr_lon[fi] == lo, "CPR fields of this frame stored in the slot of its parity");
+        assert!(n.cpr_time[fi] == n.timestamp, "CPR receive time of this frame = the row's time stamp (its receive time)");
+        assert!(n.cpr_lat[other] == o.cpr_lat[other] && n.cpr_lon[other] == o.cpr_lon[other] && n.cpr_time[other] == o.cpr_time[other], "the other parity's stored CPR data unchanged");
+        unsafe {
+            assert!(G_POS_CALLS == 1 && G_POS_ARGS == (tc, f), "position update requested once, for this type code and parity");
+            assert!(G_POS_LAT == n.cpr_lat && G_POS_LON == n.cpr_lon && G_POS_T_EQ, "position update sees the freshly stored slot");
+        }
+    }
+
+    /// C08 pairing rule on the row AFTER the frame's CPR fields were stored.
+    pub fn pair_ok(n_lat: &[u32; 2], n_lon: &[u32; 2], t: &[DateTime<Utc>; 2]) -> bool {
+        n_lat[0] != 0 && n_lat[1] != 0 && n_lon[0] != 0 && n_lon[1] != 0
+            && t[0].signed_duration_since(t[1]).num_seconds().abs() < 10
+    }
+
+    /// CPR storage + position update of a TC5..18 frame (C08 (c)).
+    pub fn check_cpr_and_position(o: &Plane, n: &Plane, m: &[u32], tc: u32) {
+        let (f, la, lo) = decoder::cpr(m).unwrap();
+        let fi = f as usize;
+        let other = 1 - fi;
+        assert!(n.cpr_lat[fi] == la && n.cpr_lon[fi] == lo, "CPR fields of this frame stored in the slot of its parity");
+        assert!(n.cpr_time[fi] == ghost_now(), "CPR receive time of this frame = its receive time");
+        assert!(n.cpr_lat[other] == o.cpr_lat[other] && n.cpr_lon[other] == o.cpr_lon[other] && n.cpr_time[other] == o.cpr_time[other], "the other parity's stored CPR data unchanged");
+        let paired = pair_ok(&n.cpr_lat, &n.cpr_lon, &n.cpr_time);
+        let mut committed = false;
+        unsafe {
+            if paired {
+                assert!(G_LOC_CALLS == 1, "valid even/odd pair: global decode evaluated once");
+                let coeff = if tc <= 8 { 4 } else { 1 };
+                assert!(G_LOC_ARGS.0 == n.cpr_lat && G_LOC_ARGS.1 == n.cpr_lon && G_LOC_ARGS.2 == f && G_LOC_ARGS.3 == coeff, "global decode of the stored pair, anchored on this frame's parity");
+                if G_LOC_SOME && G_LOC_LAT >= -90.0 && G_LOC_LAT <= 90.0 && G_LOC_LON >= -180.0 && G_LOC_LON <= 180.0 {
+                    committed = true;
+                }
+            }
+            if committed {
+                assert!(n.lat == G_LOC_LAT && n.lon == G_LOC_LON, "position = global CPR decode of the pair");
+                assert!(n.position_timestamp == Some(ghost_now()), "position time stamp = receive time");
+                if G_OBS_SOME {
+                    assert!(G_HAV_CALLS == 1 && G_HAV_ARGS == (G_LOC_LAT, G_LOC_LON, G_OBS.0, G_OBS.1), "distance = great-circle distance from the new position to the observer");
+                    assert!(n.distance_from_observer == Some(G_HAV_RET), "distance column = that distance");
+                } else {
+                    assert!(n.distance_from_observer == o.distance_from_observer, "no observer: distance unchanged");
+                }
+            } else {
+                assert!(n.lat == o.lat && n.lon == o.lon, "no valid pair / zone-straddling / out of range: position left as it was");
+                assert!(n.distance_from_observer == o.distance_from_observer, "no new position: distance left as it was");
+                assert!(n.position_timestamp == o.position_timestamp, "no new position: position time stamp left as it was");
+            }
+        }
+    }
+
+    /// Row step for a DF17 frame, by type code.
+    pub fn check_ext(o: &Plane, n: &Plane, m: &[u32], path: Path) {
+        let df = 17;
+        let (tc, st) = decoder::get_message_type(m);
+        check_clock(n);
+        check_last_df(o, n, df, path);
+        keep_identity(o, n);
+        assert!(n.capability.0 == o.capability.0 || n.capability.0 == decoder::get_capability(m), "DF17: CA capability kept or recorded from the CA field");
+        keep_cap17(o, n);
+        keep_squawk(o, n);
+        keep_commb_only(o, n);
+        assert!(n.last_type_code == tc, "last type code recorded");
+        // callsign / category: TC 1-4
+        if tc >= 1 && tc <= 4 {
+            assert!(n.ais == decoder::ais(m), "TC1-4: callsign = decoded identification");
+            assert!(n.category == (tc, st), "TC1-4: emitter category = (type code, category)");
+        } else {
+            keep_callsign(o, n);
+            keep_category(o, n);
+        }
+        // altitude: TC 9-18 carry it, a surface squitter (TC 5-8) blanks it
+        if tc >= 9 && tc <= 18 {
+            assert!(n.altitude == decoder::altitude(m, df), "TC9-18: altitude = decoded AC12");
+            assert!(n.altitude_source == ' ', "TC9-18: altitude source blank");
+        } else if tc >= 5 && tc <= 8 {
+            assert!(n.altitude.is_none(), "TC5-8 surface position: altitude blanked");
+            assert!(n.altitude_source == '\u{2070}', "TC5-8: altitude source mark");
+        } else if tc == 19 && (st == 3 || st == 4) {
+            assert!(n.altitude == o.altitude, "TC19: altitude unchanged");
+            assert!(n.altitude_source == '"', "TC19 subtype 3/4: altitude source mark");
+        } else {
+            keep_altitude(o, n);
+        }
+        // surveillance status: TC 9-18 and 20-22
+        if (tc >= 9 && tc <= 18) || (tc >= 20 && tc <= 22) {
+            assert!(n.surveillance_status == decoder::surveillance_status(m), "TC9-18/20-22: surveillance status");
+        } else {
+            assert!(n.surveillance_status == o.surveillance_status, "frame clause: surveillance status unchanged");
+        }
+        // ADS-B version: TC 31
+        if tc == 31 {
+            assert!(n.adsb_version == decoder::version(m), "TC31: ADS-B version");
+        } else {
+            assert!(n.adsb_version == o.adsb_version, "frame clause: ADS-B version unchanged");
+        }
+        // GNSS altitude: TC 20-22 directly, TC19 as barometric altitude + delta
+        if tc >= 20 && tc <= 22 {
+            assert!(n.altitude_gnss == decoder::altitude_gnss(m), "TC20-22: GNSS altitude");
+        } else if tc == 19 {
+            match (o.altitude, decoder::altitude_delta(m)) {
+                (Some(a), Some(d)) => assert!(n.altitude_gnss == Some((a as i32 + d) as u32), "TC19: GNSS altitude = barometric + delta"),
+                _ => assert!(n.altitude_gnss == o.altitude_gnss, "TC19 without altitude or delta: GNSS altitude unchanged"),
+            }
+        } else {
+            keep_gnss(o, n);
+        }
+        // velocity: TC19 subtype 1/2; surface squitter sets track from the ground track field
+        if tc == 19 {
+            assert!(n.vrate == decoder::vertical_rate(m), "TC19: vertical rate = decoded field");
+            assert!(n.vrate_source == ' ', "TC19: vertical rate source blank");
+            if st == 1 || st == 2 {
+                unsafe {
+                    assert!(G_TGS_CALLS >= 1 && G_TGS_MSG == m.as_ptr() && G_TGS_SS == (st == 2), "TC19 subtype 1/2: velocity decoded from this frame with the subtype's unit");
+                    assert!(n.track == G_TGS_RET.0, "TC19 subtype 1/2: track = decoded track");
+                    assert!(n.grspeed == G_TGS_RET.1, "TC19 subtype 1/2: ground speed = decoded ground speed");
+                }
+                assert!(n.track_source == if st == 1 { '\u{2081}' } else { '\u{2082}' }, "TC19 subtype 1/2: track source mark");
+                keep_heading(o, n);
+            } else if st == 3 || st == 4 {
+                assert!(n.heading == decoder::heading(m), "TC19 subtype 3/4: heading");
+                assert!(n.heading_source == '\u{2083}', "TC19 subtype 3/4: heading source mark");
+                keep_velocity(o, n);
+            } else {
+                keep_velocity(o, n);
+                keep_heading(o, n);
+            }
+        } else {
+            keep_vrate(o, n);
+            keep_heading(o, n);
+            if tc >= 5 && tc <= 8 {
+                assert!(n.track == decoder::ground_track(m), "TC5-8: track = ground track field");
+                assert!(n.track_source == ' ' || n.track_source == '\u{2070}', "TC5-8: track source mark");
+                assert!(n.grspeed == o.grspeed, "frame clause: ground speed unchanged");
+            } else {
+                keep_velocity(o, n);
+            }
+        }
+        if tc >= 5 && tc <= 8 {
+            assert!(n.ground_movement == decoder::ground_movement(m), "TC5-8: ground movement");
+        } else {
+            keep_surface(o, n);
+        }
+        // position
+        if tc >= 5 && tc <= 18 {
+            check_cpr_and_position(o, n, m, tc);
+        } else {
+            keep_cpr(o, n);
+            keep_position(o, n);
+        }
+    }
+
+    /// lo..=hi type codes; st_sel: None = any subtype
+    fn ext_step(path: Path, tc_lo: u32, tc_hi: u32, times: bool) {
+        let mut m = any_frame28();
+        set_bits(&mut m, 1, 5, 17);
+        let tcv: u32 = kani::any();
+        kani::assume(tcv >= tc_lo && tcv <= tc_hi);
+        set_bits(&mut m, 33, 37, tcv);
+        kani::assume(decoder::get_icao(&m, 17).is_some());
+        let relaxed: bool = kani::any();
+        let old = any_plane(times);
+        let mut new = clone_plane(&old);
+        apply(&mut new, &m, 17, relaxed, path);
+        check_ext(&old, &new, &m, path);
+        kani::cover!(true, "reach_end");
+    }
+
+    macro_rules! ext_harness {
+        ($name:ident, $path:expr, $lo:expr, $hi:expr, $times:expr) => {
+            #[kani::proof]
+            #[kani::unwind(34)]
+            #[kani::stub(chrono::Utc::now, now_rec)]
+            #[kani::stub(crate::decoder::ehs::track_and_groundspeed, tgs_rec)]
+            #[kani::stub(crate::decoder::cpr_location, loc_rec)]
+            #[kani::stub(crate::decoder::observer::get_observer_coords, obs_rec)]
+            #[kani::stub(crate::decoder::plane::update_position::haversine, hav_rec)]
+            fn $name() {
+                ext_step($path, $lo, $hi, $times);
+            }
+        };
+    }
+
+    //@ob id=L2.step.ext.tc1_4.update flags=noassert props=C07,C11,C12 tier=thorough mem=high kind=harness fns=plane/from_squitter.rs:Plane::update,plane/from_squitter/from_ext.rs:update_from_ext draw=frame28
+    //@region -U path, all DF17 frames TC1-4 x all rows: callsign and category set, everything else unchanged
+    ext_harness!(l2_step_ext_tc1_4_update, Path::Update, 1, 4, false);
+    //@ob id=L2.step.ext.tc1_4.downlink flags=noassert props=C07,C11,C12,C19 tier=thorough mem=high kind=harness fns=plane/from_downlink/from_ext.rs:update_from_downlink,downlink/extended/update.rs:Ext::update draw=frame28
+    //@region default path, same frames and rows
+    ext_harness!(l2_step_ext_tc1_4_downlink, Path::Downlink, 1, 4, false);
+    //@ob id=L2.step.ext.tc5_8.update flags=noassert props=C08,C11,C12 tier=thorough mem=high kind=harness fns=plane/from_squitter.rs:Plane::update,plane/from_squitter/from_ext.rs:update_from_ext_5_8,plane/update_position.rs:update_position draw=frame28
+    //@region -U path, all DF17 surface-position frames TC5-8 x all rows incl. symbolic CPR slots and receive times: altitude blanked, track/ground movement set, CPR pairing rule
+    ext_harness!(l2_step_ext_tc5_8_update, Path::Update, 5, 8, true);
+    //@ob id=L2.step.ext.tc5_8.downlink flags=noassert props=C08,C11,C12,C19 tier=thorough mem=high kind=harness fns=plane/from_downlink/from_ext.rs:amend_from_ext_5_8,plane/update_position.rs:update_position draw=frame28
+    //@region default path, same frames and rows
+    ext_harness!(l2_step_ext_tc5_8_downlink, Path::Downlink, 5, 8, true);
+    //@ob id=L2.step.ext.tc9_18.update flags=noassert props=C05,C08,C11,C12 tier=thorough mem=high kind=harness fns=plane/from_squitter.rs:Plane::update,plane/from_squitter/from_ext.rs:update_from_ext_9_18,plane/from_squitter/from_ext.rs:update_cpr,plane/update_position.rs:update_position draw=frame28
+    //@region -U path, all DF17 airborne-position frames TC9-18 x all rows incl. symbolic CPR slots and receive times: altitude, surveillance status, CPR slot and receive time stored; position changes iff both slots non-zero, < 10 s apart, global decode succeeds in range
+    ext_harness!(l2_step_ext_tc9_18_update, Path::Update, 9, 18, true);
+    //@ob id=L2.step.ext.tc9_18.downlink flags=noassert props=C05,C08,C11,C12,C19 tier=thorough mem=high kind=harness fns=plane/from_downlink/from_ext.rs:amend_from_ext_9_18,plane/from_downlink/from_ext.rs:amend_cpr,plane/update_position.rs:update_position draw=frame28
+    //@region default path, same frames and rows
+    ext_harness!(l2_step_ext_tc9_18_downlink, Path::Downlink, 9, 18, true);
+    //@ob id=L2.step.ext.tc19.update flags=noassert props=C09,C11,C12 tier=thorough mem=high kind=harness fns=plane/from_squitter.rs:Plane::update,plane/from_squitter/from_ext.rs:update_from_ext_19 draw=frame28
+    //@region -U path, all DF17 velocity frames TC19 (all subtypes) x all rows: vertical rate, track, ground speed (subtype 1/2), heading (3/4), GNSS altitude from delta
+    ext_harness!(l2_step_ext_tc19_update, Path::Update, 19, 19, false);
+    //@ob id=L2.step.ext.tc19.downlink flags=noassert props=C09,C11,C12,C19 tier=thorough mem=high kind=harness fns=plane/from_downlink/from_ext.rs:amend_from_ext_19,downlink/extended/update.rs:update_mt_19 draw=frame28
+    //@region default path, same frames and rows: the decoded velocity must reach the row here too
+    ext_harness!(l2_step_ext_tc19_downlink, Path::Downlink, 19, 19, false);
+    //@ob id=L2.step.ext.tc20_31.update flags=noassert props=C11,C12 tier=thorough mem=high kind=harness fns=plane/from_squitter.rs:Plane::update,plane/from_squitter/from_ext.rs:update_from_ext draw=frame28
+    //@region -U path, all DF17 frames TC20-31 and TC0 x all rows: GNSS altitude + status (20-22), version (31), nothing for the rest
+    ext_harness!(l2_step_ext_tc20_31_update, Path::Update, 20, 31, false);
+    //@ob id=L2.step.ext.tc20_31.downlink flags=noassert props=C11,C12,C19 tier=thorough mem=high kind=harness fns=plane/from_downlink/from_ext.rs:update_from_downlink draw=frame28
+    //@region default path, same frames and rows
+    ext_harness!(l2_step_ext_tc20_31_downlink, Path::Downlink, 20, 31, false);
+    //@ob id=L2.step.ext.tc0.update flags=noassert props=C11,C12 tier=thorough mem=high kind=harness fns=plane/from_squitter.rs:Plane::update draw=frame28
+    //@region -U path, DF17 TC0 (no position information): nothing but the clock changes
+    ext_harness!(l2_step_ext_tc0_update, Path::Update, 0, 0, false);
+    //@ob id=L2.step.ext.tc0.downlink flags=noassert props=C11,C12,C19 tier=thorough mem=high kind=harness fns=plane/from_downlink/from_ext.rs:update_from_downlink draw=frame28
+    //@region default path, DF17 TC0
+    ext_harness!(l2_step_ext_tc0_downlink, Path::Downlink, 0, 0, false);
 }
